@@ -4,7 +4,7 @@ closely related ones), restore /repo.  Writes seeded/<id>/meta.json['detected_by
 import os, sys, json, subprocess, time, glob
 V = '/verif'
 RELATED = {'C01': ['C10'], 'C02': ['C16', 'C15'], 'C03': [], 'C04': [], 'C05': ['C08', 'C02'], 'C06': ['C14', 'C11'], 'C07': [], 'C08': ['C15'],
-           'C09': [], 'C10': ['C03'], 'C11': ['C03'], 'C12': [], 'C13': [], 'C14': ['C06'], 'C15': [], 'C16': [], 'C17': [], 'C18': [], 'C19': ['C04', 'C16'], 'C20': ['C04']}
+           'C09': [], 'C10': ['C03'], 'C11': ['C03'], 'C12': [], 'C13': [], 'C14': ['C06'], 'C15': ['C16'], 'C16': [], 'C17': [], 'C18': [], 'C19': ['C04', 'C16'], 'C20': ['C04']}
 def sh(cmd, **kw):
     return subprocess.run(cmd, shell=True, stdout=subprocess.PIPE, stderr=subprocess.STDOUT, text=True, **kw)
 def main():
